@@ -991,7 +991,7 @@ Section Prov.
   Lemma gen_memory_value_ok n l v : gen_memory_value n = Some (l, v) -> aok v.
   Proof.
     unfold gen_memory_value. destruct n; try discriminate.
-    - destruct (N.eqb (wv rs1) 2); intros E; inversion E; exact I.
+    - destruct (N.eqb (wv rs1) 2 && inst_is i ISw)%bool; intros E; inversion E; exact I.
     - destruct (inst_is i ICsrrw); intros E; inversion E; exact I.
     - destruct (inst_is i ICsrrwi); intros E; inversion E; exact I.
   Qed.
@@ -1010,7 +1010,7 @@ Section Prov.
     { subst out1. destruct (rm_get (wv dst) out) as [[]|]; try exact H.
       destruct (mm_get (MCsr c) mi) eqn:E; [|exact H]. apply rm_insert_ok; [|exact H]. eapply mm_get_ok; eassumption. }
     destruct (rm_get (wv dst) out1) as [[]|]; try exact H1.
-    destruct (N.eqb r 2); [|exact H1].
+    destruct (N.eqb r 2 && loads_word n)%bool; [|exact H1].
     destruct (mm_get (MStack off) mi) eqn:E; [|exact H1]. apply rm_insert_ok; [|exact H1]. eapply mm_get_ok; eassumption.
   Qed.
 
@@ -1072,55 +1072,27 @@ Section Prov.
     nok (cn c) -> vals_ok ri -> vals_ok mi -> vals_ok (mout c) ->
     avail_transfer c ri mi = (ro, mo) -> vals_ok ro /\ vals_ok mo.
   Proof.
-    intros Hn Hri Hmi Hmo E. unfold avail_transfer in E. inversion E; subst ro mo. clear E. split.
+    intros Hn Hri Hmi Hmo E. unfold avail_transfer in E. cbv zeta in E. inversion E; subst ro mo. clear E. split.
     - apply rule_math_ok. apply rule_zero_reg_ok. apply rule_pull_ok; [|exact Hmo].
       apply rule_value_from_stack_ok; [|exact Hmi]. apply rule_expand_ok.
-      assert (H4 : vals_ok (match gen_reg_value (cn c) with
-                            | Some (r, v) => rm_insert r v
-                                (if is_ecall (cn c) then rm_remove_set
-                                   (match known_ecall_signature (set_avail c ri (rout c) mi (mout c)) with
-                                    | Some (_, rets) => rets | None => program_args_set end)
-                                   (match calls_to (cn c) with
-                                    | Some _ => rm_remove_set return_addr_set (rm_remove_set (kill_reg (cn c)) ri)
-                                    | None => rm_remove_set (kill_reg (cn c)) ri end)
-                                 else (match calls_to (cn c) with
-                                    | Some _ => rm_remove_set return_addr_set (rm_remove_set (kill_reg (cn c)) ri)
-                                    | None => rm_remove_set (kill_reg (cn c)) ri end))
-                            | None => (if is_ecall (cn c) then rm_remove_set
-                                   (match known_ecall_signature (set_avail c ri (rout c) mi (mout c)) with
-                                    | Some (_, rets) => rets | None => program_args_set end)
-                                   (match calls_to (cn c) with
-                                    | Some _ => rm_remove_set return_addr_set (rm_remove_set (kill_reg (cn c)) ri)
-                                    | None => rm_remove_set (kill_reg (cn c)) ri end)
-                                 else (match calls_to (cn c) with
-                                    | Some _ => rm_remove_set return_addr_set (rm_remove_set (kill_reg (cn c)) ri)
-                                    | None => rm_remove_set (kill_reg (cn c)) ri end))
-                            end)).
-      { assert (H2 : vals_ok (match calls_to (cn c) with
-                                    | Some _ => rm_remove_set return_addr_set (rm_remove_set (kill_reg (cn c)) ri)
-                                    | None => rm_remove_set (kill_reg (cn c)) ri end)).
-        { destruct (calls_to (cn c)); unfold rm_remove_set; repeat apply filter_ok; exact Hri. }
-        assert (H3 : vals_ok (if is_ecall (cn c) then rm_remove_set
-                                   (match known_ecall_signature (set_avail c ri (rout c) mi (mout c)) with
-                                    | Some (_, rets) => rets | None => program_args_set end)
-                                   (match calls_to (cn c) with
-                                    | Some _ => rm_remove_set return_addr_set (rm_remove_set (kill_reg (cn c)) ri)
-                                    | None => rm_remove_set (kill_reg (cn c)) ri end)
-                                 else (match calls_to (cn c) with
-                                    | Some _ => rm_remove_set return_addr_set (rm_remove_set (kill_reg (cn c)) ri)
-                                    | None => rm_remove_set (kill_reg (cn c)) ri end))).
-        { destruct (is_ecall (cn c)); [unfold rm_remove_set at 1; apply filter_ok|]; exact H2. }
-        destruct (gen_reg_value (cn c)) as [[r v]|] eqn:Eg; [|exact H3].
-        apply rm_insert_ok; [|exact H3]. eapply gen_reg_value_ok; eassumption. }
-      destruct (is_program_entry (cn c)); [apply rm_extend_originals_ok|];
-        (destruct (is_function_entry (cn c)); [apply rm_extend_originals_ok|]);
-        (destruct (is_handler_function_entry (cn c)); [apply rm_extend_originals_ok|]); exact H4.
+      repeat match goal with
+             | |- vals_ok (if ?b then _ else _) => destruct b
+             | |- vals_ok (rm_extend_originals _ _) => apply rm_extend_originals_ok
+             | |- vals_ok [] => apply vals_nil
+             | |- vals_ok (match gen_reg_value ?n with _ => _ end) => destruct (gen_reg_value n) as [[? ?]|] eqn:?
+             | |- vals_ok (rm_insert _ _ _) => apply rm_insert_ok; [eapply gen_reg_value_ok; eassumption|]
+             | |- vals_ok (filter _ _) => apply filter_ok
+             end; exact Hri.
     - apply rule_known_ok. apply rule_push_ok. apply rule_zero_mem_ok.
-      destruct (is_any_entry (cn c)); [apply vals_nil|].
-      destruct (gen_memory_value (cn c)) as [[[off|cs|cs off] v]|] eqn:Eg; try exact Hmi.
-      + destruct (stack_offset ri); [|exact Hmi]. apply mm_insert_ok; [|exact Hmi]. eapply gen_memory_value_ok; exact Eg.
-      + apply mm_insert_ok; [|exact Hmi]. eapply gen_memory_value_ok; exact Eg.
-      + apply mm_insert_ok; [|exact Hmi]. eapply gen_memory_value_ok; exact Eg.
+      repeat match goal with
+             | |- vals_ok (if ?b then _ else _) => destruct b
+             | |- vals_ok [] => apply vals_nil
+             | |- vals_ok (match gen_memory_value ?n with _ => _ end) =>
+                 destruct (gen_memory_value n) as [[[?|?|? ?] ?]|] eqn:?
+             | |- vals_ok (match stack_offset ?r with _ => _ end) => destruct (stack_offset r)
+             | |- vals_ok (mm_insert _ _ _) => apply mm_insert_ok; [eapply gen_memory_value_ok; eassumption|]
+             | |- vals_ok (filter _ _) => apply filter_ok
+             end; exact Hmi.
   Qed.
 
   Definition gok (c : cnode) : Prop :=
